@@ -186,9 +186,22 @@ def sameModuloStrip (c : Conf) : List RR → List RR → Bool
 def deliveredUnchanged (c : Conf) (strip : Bool) (got up : List RR) : Bool :=
   if strip && c.aaaaDisabled then eraseAll got == eraseAll (up.map stripRR) else eraseAll got == eraseAll up
 
-/-- candidate hosts-style addresses for a response-stage block in default mode -/
-def respRuleIPs (e : Engines) (c : Conf) (q : Query) (rr : RR) : List (List IP) :=
-  (revealed c rr).filter (fun (h, t) => ruleBlockedName e c h t) |>.map (fun (h, t) => hostRuleIPs e c h t q.qtype)
+/-- the blocked names a record reveals, each with the record type it is checked
+under and the hosts-style addresses of the lines blocking it -/
+def respCandidates (e : Engines) (c : Conf) (rr : RR) : List (Nat × List IP) :=
+  ((revealed c rr).filter (fun (h, t) => ruleBlockedName e c h t)).map (fun (h, t) => (t, hostRuleIPs e c h t t))
+
+/-- The response that replaces an answer revealing a blocked name: the blocking
+mode's synthetic response (hosts-style addresses count only when the record
+was checked under the query's own type).
+QUIRK accepted explicitly: default mode, address query, and the blocking
+hosts-style line was matched under the OTHER address type (an A record in a
+AAAA answer or vice versa, the line naming an IP literal) — AdGuard Home then
+answers with an empty NOERROR instead of the null address. -/
+def respBlockOK (c : Conf) (q : Query) (t : Nat) (ips : List IP) (m : Msg) : Bool :=
+  syntheticOK c q (if t = q.qtype then ips else []) m ||
+  (c.mode == .default && (q.qtype == tA || q.qtype == tAAAA) && t != q.qtype && !ips.isEmpty &&
+   m.qname == q.name && m.qtype == q.qtype && m.rcode == rcSuccess && m.answer.isEmpty && m.ns.isEmpty)
 
 /-! ## C01 -/
 namespace C01
@@ -243,7 +256,7 @@ def check (e : Engines) (c : Conf) (u : Upstream) (q : Query) (out : Outcome) : 
         match u.answer.find? (offending e c) with
         | some rr =>
           -- replaced, wherever the record sits
-          if !((respRuleIPs e c q rr).any (fun ips => syntheticOK c q ips m) || syntheticOK c q [] m) then
+          if !((respCandidates e c rr).any (fun (t, ips) => respBlockOK c q t ips m)) then
             some "offending-record-delivered"
           else match qlog with
             | some l =>
